@@ -18,6 +18,7 @@ package types
 
 import (
 	"fmt"
+	"strconv"
 
 	"github.com/docker/go-units"
 )
@@ -40,7 +41,12 @@ func (u *UnitBytes) DecodeMapstructure(value interface{}) error {
 	case int:
 		*u = UnitBytes(v)
 	case string:
-		b, err := units.RAMInBytes(fmt.Sprint(value))
+		// a plain integer, possibly negative (memswap_limit: -1 is rendered as "-1")
+		if i, err := strconv.ParseInt(v, 10, 64); err == nil {
+			*u = UnitBytes(i)
+			return nil
+		}
+		b, err := units.RAMInBytes(v)
 		*u = UnitBytes(b)
 		return err
 	}
